@@ -151,6 +151,9 @@ def main(tier):
     time_table_shape(rep)
     for name, why in c05.DECLARED_OUT_OF_REACH.items():
         rep.assumptions.append(f"out of reach (bounded tier only): parserfns:{name}: {why}")
+    for d in c05.CALLEES:
+        rep.assumptions.append(f"assumed callee contract: {d['target']} is total and returns {d['result']} "
+                               f"-- owner: {d['owner']}")
     try:
         rep.bounded = check.run_repo_py("bounded/c05_run.py", {"tier": tier, "seed": rep.seed}, timeout=6000)
     except Exception as ex:
@@ -164,7 +167,9 @@ def main(tier):
         "guarded via the lemma isdecimal(s) => int-parsable(s) over the exact Unicode tables. "
         "F: namespace-table facts used as preconditions hold in all shipped data files. "
         "NOT proved: termination of expand() (no measure through the regex fixpoint encoder), expr_fn/time_fn/"
-        "dateformat_fn/property_fn (declared out of reach), MemoryError on huge pad counts. "
+        "timel_fn/dateformat_fn/fullurl_fn (declared out of reach; see assumptions), the wikidata query behind "
+        "property_fn/statements_fn (their own bodies are under the totality contract, statement_query is an assumed "
+        "total callee), MemoryError on huge pad counts. "
         "B (bounded stand-in, not counted as proved): see bounded_tier.")
     return rep.finish(replayer=replay, expected_min_functions=len(cs) - 2)
 
